@@ -314,7 +314,7 @@ Theorem c04_start_leaves_registry_clean : forall s st,
   run repaired s = Ok st ->
   creating (reg st) = [] /\ forall m, alookup m (L2 (reg st)) = None /\ alookup m (L3 (reg st)) = None.
 Proof.
-  intros s st H. destruct (run_core_top repaired (normalise repaired s) st eq_refl H) as [HI Hcr].
+  intros s st H. destruct (run_core_top (P:=anyk) repaired (normalise repaired s) st eq_refl H) as [HI Hcr].
   split; [exact Hcr|]. intros m.
   destruct (alookup m (L2 (reg st))) eqn:E2; [exfalso|destruct (alookup m (L3 (reg st))) eqn:E3; [exfalso|split; reflexivity]].
   - assert (Hin : In m (creating (reg st))) by (apply (i_early_creating st HI); rewrite E2; reflexivity). rewrite Hcr in Hin. exact Hin.
@@ -425,3 +425,10 @@ Example c04_extended_example :
      | Fail _ _ => False
      end.
 Proof. vm_compute. repeat split. Qed.
+
+(* ... and a successful start of the extended model leaves the registry clean as well *)
+From IocVerif Require Import Proofs.FactoryXInv.
+Theorem c04_start_leaves_registry_clean_extended : forall s x o st,
+  run_xt repaired s x = (o, Ok st) ->
+  creating (reg st) = [] /\ forall m, alookup m (L2 (reg st)) = None /\ alookup m (L3 (reg st)) = None.
+Proof. intros s x o st H. exact (run_xt_caches_clean repaired s x o st eq_refl H). Qed.
